@@ -24,17 +24,17 @@ def VALID_CROP(c):
     return [
         "{c}.GDDmethod == 1 or {c}.GDDmethod == 2 or {c}.GDDmethod == 3", "{c}.Tbase < {c}.Tupp",
         "{c}.CalendarType == 1 or {c}.CalendarType == 2",
-        "{c}.Zmin >= 0.02", "{c}.Aer >= 1", "{c}.Aer <= 100",
+        "{c}.Zmin >= 0.02", "{c}.Aer >= 1 or {c}.Aer <= 0", "{c}.Aer <= 100",
         "forall(k, 0, 4, 0 <= {c}.p_up[k] and {c}.p_up[k] <= 1)", "forall(k, 0, 4, 0 <= {c}.p_lo[k] and {c}.p_lo[k] <= 1)",
         "forall(k, 0, 3, {c}.fshape_w[k] != 0)", "{c}.p_up[1] < {c}.p_lo[1]",
         "0 < {c}.CC0 and {c}.CC0 < {c}.CCx and {c}.CCx <= 1", "{c}.CGC > 0", "{c}.CDC > 0",
         "{c}.Kcb >= 0", "{c}.fage >= 0", "{c}.a_Tr > 0",
-        "{c}.TrColdStress == 0 or {c}.TrColdStress == 1", "{c}.GDD_lo < {c}.GDD_up", "{c}.ETadj == 0 or {c}.ETadj == 1",
+        "{c}.TrColdStress == 0 or {c}.TrColdStress == 1", "implies({c}.TrColdStress == 1, {c}.GDD_lo < {c}.GDD_up)", "{c}.ETadj == 0 or {c}.ETadj == 1",
         "{c}.LagAer >= 2", "{c}.SxTop >= 0 and {c}.SxBot >= 0",
         "{c}.PolHeatStress == 0 or {c}.PolHeatStress == 1", "{c}.PolColdStress == 0 or {c}.PolColdStress == 1",
         "{c}.Tmin_lo < {c}.Tmin_up", "{c}.fshape_b >= 0",
         "{c}.CropType == 1 or {c}.CropType == 2 or {c}.CropType == 3",
-        "{c}.HI0 >= 0", "{c}.dHI0 >= 0", "{c}.FloweringCD > 0", "implies({c}.dHI_pre > 0, {c}.dHI_pre > 1)", "{c}.exc >= -100",
+        "{c}.HI0 >= 0", "{c}.dHI0 >= -100", "{c}.FloweringCD > 0", "implies({c}.dHI_pre > 0, {c}.dHI_pre > 1)", "{c}.exc >= -100",
         "0 < {c}.HIini and {c}.HIini < {c}.HI0", "{c}.HIGC >= 0", "{c}.dHILinear >= 0", "{c}.tLinSwitch >= 0",
         "{c}.WP >= 0", "0 <= {c}.WPy and {c}.WPy <= 100", "{c}.fCO2 >= 0", "{c}.YldFormCD > 0", "{c}.YldWC > 0",
         "{c}.PlantMethod == 0 or {c}.PlantMethod == 1",
@@ -74,12 +74,13 @@ STEP_REQ = (
         "length(weather_step) == 5 or True", "weather_step[2] >= 0", "weather_step[3] > 0",
         # soil parameters (valid_soil)
         "{s}.adj_cn == 0 or {s}.adj_cn == 1".format(s=SOILO), "0 < {s}.z_cn and {s}.z_cn <= {p}.dzsum[n-1]".format(s=SOILO, p=P),
-        "{s}.z_top >= {p}.dzsum[0] + 0.005 or (is_int(100 * {s}.z_top) and {s}.z_top >= {p}.dzsum[0])".format(s=SOILO, p=P),
+        "{s}.z_top >= 0.01".format(s=SOILO),
         "0.01 <= {s}.z_germ and {s}.z_germ <= {p}.dzsum[n-1]".format(s=SOILO, p=P),
         "0 < {s}.evap_z_min and {s}.evap_z_min <= {s}.evap_z_max and {s}.evap_z_max + 0.001 <= {p}.dzsum[n-2]".format(s=SOILO, p=P),
-        "0 <= {s}.rew and {s}.rew < 1000 * ({p}.th_fc[0] - {p}.th_dry[0]) * min({s}.evap_z_min, {p}.dz[0])".format(s=SOILO, p=P),
+        "gmin > 0", "forall(j, 0, n, {p}.th_fc[j] - {p}.th_dry[j] >= gmin)".format(p=P),
+        "0 <= {s}.rew and {s}.rew < 1000 * gmin * {s}.evap_z_min".format(s=SOILO),
         "{s}.kex >= 0 and 0 <= {s}.fwcc and {s}.fwcc <= 100 and {s}.f_evap > 0".format(s=SOILO),
-        "{s}.kex * weather_step[3] <= clock_struct.evap_time_steps * (1000 * ({p}.th_fc[0] - {p}.th_dry[0]) * min({s}.evap_z_min, {p}.dz[0]) - {s}.rew)".format(s=SOILO, p=P),
+        "{s}.kex * weather_step[3] <= clock_struct.evap_time_steps * (1000 * gmin * {s}.evap_z_min - {s}.rew)".format(s=SOILO),
         # water state (water_inv) and evaporation state
         W.WATER_INV(IC + ".th", P),
         "forall(j, 0, n, {p}.th_fc[j] <= {ic}.th_fc_Adj[j] and {ic}.th_fc_Adj[j] <= {p}.th_s[j])".format(p=P, ic=IC),
@@ -95,7 +96,7 @@ STEP_REQ = (
         "{ic}.canopy_cover <= 1 and {ic}.canopy_cover_ns <= 1 and {ic}.ccx_w <= 1 and {ic}.ccx_w_ns <= 1 and {ic}.ccx_act_ns <= 1".format(ic=IC),
         # season-crop related state (only meaningful once a season has started)
         "implies({sc} >= 0, 0 <= {ic}.HIfinal and {ic}.HIfinal <= {c}.HI0 and 0 <= {ic}.hi_ref and {ic}.hi_ref <= {c}.HI0)".format(sc=SC, ic=IC, c=CROP_S),
-        "implies({sc} >= 0, {ic}.harvest_index <= {c}.HI0 and {ic}.harvest_index_adj <= {c}.HI0 * (1 + {c}.dHI0 / 100))".format(sc=SC, ic=IC, c=CROP_S),
+        "implies({sc} >= 0, {ic}.harvest_index <= {c}.HI0 and {ic}.harvest_index_adj <= {c}.HI0 * (1 + max({c}.dHI0, 0) / 100))".format(sc=SC, ic=IC, c=CROP_S),
         "implies({sc} >= 0, {ic}.aer_days <= {c}.LagAer and {ic}.cc0_adj <= {c}.CC0)".format(sc=SC, ic=IC, c=CROP_S),
         "implies({sc} >= 0 and {ic}.hi_ref > 0, {ic}.dap - {ic}.delayed_cds - {c}.HIstartCD - 1 > 0)".format(sc=SC, ic=IC, c=CROP_S),
         # valid_crop + calendar + weather assumptions on dynamic quantities (bounded checks only):
@@ -115,7 +116,7 @@ _S = lambda th: "wsum(%s.dz, %s, n)" % (P, th)
 contract(TS + "run_single_timestep.py", "solution_single_time_step",
          params=dict(init_cond=OBJ("InitialCondition"), param_struct=OBJ("ParamStruct"), clock_struct=OBJ("ClockStruct"),
                      weather_step=ARR("Real", 5), outputs=OBJ("Output")),
-         ghost=dict(n="Int", n_steps="Int", n_seasons="Int"),
+         ghost=dict(n="Int", n_steps="Int", n_seasons="Int", gmin="Real"),
          requires=STEP_REQ,
          returns=[("NewCond", ("Param", "init_cond")), ("ps", ("Param", "param_struct")), ("outs", ("Param", "outputs"))],
          ensures=[
@@ -145,7 +146,7 @@ contract(TS + "run_single_timestep.py", "solution_single_time_step",
              ("C05.step_zero_out_of_season", "implies(not NewCond.growing_season, NewCond.dap == 0 and NewCond.canopy_cover == 0 and NewCond.biomass == 0 and NewCond.DryYield == 0 and NewCond.FreshYield == 0 and NewCond.gdd_cum == 0)"),
              ("C05.step_canopy", "0 <= NewCond.canopy_cover and NewCond.canopy_cover <= NewCond.canopy_cover_ns and written(outputs.crop_growth, 0)[1][6] == NewCond.canopy_cover and written(outputs.crop_growth, 0)[1][7] == NewCond.canopy_cover_ns"),
              ("C05.step_biomass_nondecreasing", "implies(NewCond.growing_season, NewCond.biomass >= old(init_cond.biomass) and NewCond.biomass_ns >= old(init_cond.biomass_ns))"),
-             ("C05.step_hi_envelope", "implies(NewCond.growing_season, NewCond.harvest_index <= param_struct.Seasonal_Crop_List[clock_struct.season_counter].HI0 and NewCond.harvest_index_adj <= param_struct.Seasonal_Crop_List[clock_struct.season_counter].HI0 * (1 + param_struct.Seasonal_Crop_List[clock_struct.season_counter].dHI0 / 100))"),
+             ("C05.step_hi_envelope", "implies(NewCond.growing_season, NewCond.harvest_index <= param_struct.Seasonal_Crop_List[clock_struct.season_counter].HI0 and NewCond.harvest_index_adj <= param_struct.Seasonal_Crop_List[clock_struct.season_counter].HI0 * (1 + max(param_struct.Seasonal_Crop_List[clock_struct.season_counter].dHI0, 0) / 100))"),
              ("C06.step_yields", "implies(NewCond.growing_season, NewCond.DryYield == NewCond.biomass / 100 * NewCond.harvest_index_adj and "
                                  "NewCond.FreshYield == NewCond.DryYield / (param_struct.Seasonal_Crop_List[clock_struct.season_counter].YldWC / 100)) and NewCond.YieldPot == NewCond.biomass_ns / 100 * NewCond.harvest_index"),
              ("C06.step_yield_row", "written(outputs.crop_growth, 0)[1][8] == NewCond.biomass and written(outputs.crop_growth, 0)[1][9] == NewCond.biomass_ns and written(outputs.crop_growth, 0)[1][10] == NewCond.harvest_index and written(outputs.crop_growth, 0)[1][11] == NewCond.harvest_index_adj and "
@@ -162,7 +163,7 @@ contract(TS + "run_single_timestep.py", "solution_single_time_step",
                                         "((param_struct.Seasonal_Crop_List[clock_struct.season_counter].CalendarType == 1 and NewCond.dap >= param_struct.Seasonal_Crop_List[clock_struct.season_counter].Maturity) or (param_struct.Seasonal_Crop_List[clock_struct.season_counter].CalendarType == 2 and NewCond.gdd_cum >= param_struct.Seasonal_Crop_List[clock_struct.season_counter].Maturity)))"),
          ],
          assigns=["init_cond.**", "outputs.**", "param_struct.Fallow_Crop.Aer", "param_struct.Fallow_Crop.Zmin"],
-         options=dict(merge_limit=None),
+         options=dict(merge_limit=None, table_cols=dict(water_flux=16, crop_growth=15, water_storage=3)),
          props=("C01", "C02", "C03", "C04", "C05", "C06", "C07", "C12", "C13", "C19", "C16"))
 
 # ----------------------------------------------------------------------------- check_model_is_finished
@@ -219,6 +220,7 @@ contract(TS + "update_time.py", "update_time",
          returns=[("clk", ("Param", "clock_struct")), ("cond", ("Param", "init_cond")), ("ps", ("Param", "param_struct"))],
          ensures=[
              ("C07.update_time_finished_is_noop", "implies(old({c}.model_is_finished), {c}.time_step_counter == old({c}.time_step_counter) and {c}.season_counter == old({c}.season_counter))".format(c=_CLK)),
+             ("C07.update_time_finished_keeps_harvest_flag", "implies(old({c}.model_is_finished), cond.harvest_flag == old(init_cond.harvest_flag))".format(c=_CLK)),
              ("C07.update_time_strictly_forward", "implies(not old({c}.model_is_finished), {c}.time_step_counter > old({c}.time_step_counter))".format(c=_CLK)),
              ("C07.update_time_next_day", "implies(not old({c}.model_is_finished) and not (old(init_cond.harvest_flag) and not {c}.sim_off_season), {c}.time_step_counter == old({c}.time_step_counter) + 1)".format(c=_CLK)),
              ("C07.update_time_jump_to_planting", "implies(not old({c}.model_is_finished) and old(init_cond.harvest_flag) and not {c}.sim_off_season, "
@@ -275,3 +277,82 @@ contract(CORE, "AquaCropModel.run_model",
          assigns=["self.**"],
          options=dict(allowed_raises=("ValueError",)),
          props=("C09", "C07", "C16"))
+
+# ----------------------------------------------------------------------------- core.py: one time step of the model object (composition of step, finish test, clock)
+contract(TS + "outputs_when_model_is_finished.py", "outputs_when_model_is_finished",
+         params=dict(model_is_finished="Bool", flux_output=("Opaque"), water_output=("Opaque"), growth_outputs=("Opaque"), steps_are_finished="Bool"),
+         returns=[("res", "Opaque")],
+         ensures=[], assigns=[], trusted=True,
+         note="ASSUMED: pure conversion of the three arrays into DataFrames (or False); pandas code, no effect on the model state",
+         props=("C09",))
+
+
+def _to_self(text):
+    import re
+    t = re.sub(r"\bweather_step\b", "self._weather[self._clock_struct.time_step_counter]", text)
+    t = re.sub(r"\binit_cond\b", "self._init_cond", t)
+    t = re.sub(r"\bparam_struct\b", "self._param_struct", t)
+    t = re.sub(r"\bclock_struct\b", "self._clock_struct", t)
+    t = re.sub(r"\boutputs\b", "self._outputs", t)
+    return t
+
+
+declare_fields("AquaCropModel", default="Real", _clock_struct=OBJ("ClockStruct"), _init_cond=OBJ("InitialCondition"), _param_struct=OBJ("ParamStruct"),
+               _outputs=OBJ("Output"), crop=OBJ("Crop"), ghost_steps="Int", _weather=OBJ("List[WeatherRow]"),
+               __steps_are_finished="Bool", __has_model_executed="Bool", __has_model_finished="Bool")
+
+_SC = "self._clock_struct"
+contract(CORE, "AquaCropModel._perform_timestep#body",
+         params=dict(self=OBJ("AquaCropModel")),
+         ghost=dict(n="Int", n_steps="Int", n_seasons="Int", gmin="Real"),
+         requires=[_to_self(r) for r in STEP_REQ if "length(weather_step)" not in r] + [_to_self(r) for r in CLOCK_AX] + [
+             "same(self._clock_struct, self._clock_struct)"],
+         returns=[("clk", ("Expr", "self._clock_struct")), ("cond", ("Expr", "self._init_cond")), ("ps", ("Expr", "self._param_struct")), ("outs", ("Expr", "self._outputs"))],
+         ensures=[
+             ("C14.timestep_reads_only_todays_weather", "only_element_read(self._weather, old(%s.time_step_counter))" % _SC),
+             ("C07.timestep_finished_means", "implies({c}.model_is_finished, old({c}.step_end_time) >= {c}.simulation_end_date or "
+                                             "(self._init_cond.harvest_flag and old({c}.season_counter) == n_seasons - 1))".format(c=_SC)),
+             ("C07.timestep_unfinished_means", "implies(not {c}.model_is_finished, old({c}.step_end_time) < {c}.simulation_end_date)".format(c=_SC)),
+             ("C07.timestep_strictly_forward", "implies(not {c}.model_is_finished, {c}.time_step_counter > old({c}.time_step_counter) and {c}.time_step_counter + 1 <= n_steps - 1)".format(c=_SC)),
+             ("C07.timestep_finished_keeps_clock", "implies({c}.model_is_finished, {c}.time_step_counter == old({c}.time_step_counter))".format(c=_SC)),
+         ],
+         assigns=["self._init_cond.**", "self._outputs.**", "self._clock_struct.**", "self._param_struct.Fallow_Crop.Aer", "self._param_struct.Fallow_Crop.Zmin"],
+         options=dict(function="AquaCropModel._perform_timestep", merge_limit=None, inline=("_weather_data_current_timestep",)),
+         props=("C07", "C14", "C15", "C09", "C16"))
+
+# ----------------------------------------------------------------------------- reset_initial_conditions: verified body (calendar-day part), C08 / C17
+declare_fields("CO2", default="Real", constant_conc="Bool", co2_data_processed=OBJ("List[PosReal]"))   # assumed: tabulated CO2 concentrations are positive
+_RESET_ZERO = ["age_days", "age_days_ns", "aer_days", "irr_cum", "delayed_gdds", "delayed_cds", "pct_lag_phase", "t_early_sen", "gdd_cum", "day_submerged",
+               "irr_net_cum", "dap", "h1_cor_asum", "h1_cor_bsum", "f_pol", "s_cor1", "s_cor2", "growth_stage", "canopy_cover", "canopy_cover_adj",
+               "canopy_cover_ns", "canopy_cover_adj_ns", "biomass", "biomass_ns", "harvest_index", "harvest_index_adj", "ccx_act", "ccx_act_ns", "ccx_w",
+               "ccx_w_ns", "ccx_early_sen", "cc_prev", "sumET0EarlySen", "DryYield", "FreshYield", "t_pot", "e_pot"]
+_RESET_FALSE = ["pre_adj", "crop_mature", "crop_dead", "germination", "premat_senes", "harvest_flag"]
+_RESET_ONE = ["stage", "f_pre", "f_post", "fpost_dwn", "fpost_upp", "tr_ratio", "r_cor"]
+_SCROP = "ParamStruct.Seasonal_Crop_List[ClockStruct.season_counter]"
+contract(TS + "reset_initial_conditions.py", "reset_initial_conditions#body",
+         params=dict(ClockStruct=OBJ("ClockStruct"), InitCond=OBJ("InitialCondition"), ParamStruct=OBJ("ParamStruct"), weather=("Opaque"), crop=OBJ("Crop")),
+         ghost=dict(n="Int"),
+         requires=["ParamStruct.Soil.nComp == n and n >= 1", "ParamStruct.CO2.ref_concentration > 0 and ParamStruct.CO2.ref_concentration < 550",
+                   "0 <= %s.fsink and %s.fsink <= 1 and %s.bsted >= 0 and %s.bface >= 0" % ((_SCROP,) * 4),
+                   "%s.bsted * ParamStruct.CO2.ref_concentration < 1" % _SCROP],
+         returns=[("NewCond", ("Param", "InitCond")), ("ps", ("Param", "ParamStruct"))],
+         ensures=[
+             ("C08.reset_counters_zero", " and ".join("NewCond.%s == 0" % f for f in _RESET_ZERO)),
+             ("C08.reset_flags_false", " and ".join("not NewCond.%s" % f for f in _RESET_FALSE)),
+             ("C08.reset_factors_one", " and ".join("NewCond.%s == 1" % f for f in _RESET_ONE)),
+             ("C08.reset_crop_dependent", "NewCond.cc0_adj == %s.CC0 and NewCond.HIfinal == %s.HI0 and not NewCond.protected_seed" % (_SCROP, _SCROP)),
+             ("C08.reset_aeration_counters", "length(NewCond.aer_days_comp) == n and forall(j, 0, n, NewCond.aer_days_comp[j] == 0)"),
+             ("C08.reset_water_content_is_private_copy", "implies(not ClockStruct.sim_off_season, not same(NewCond.th, NewCond.thini) and "
+                                                         "forall(j, 0, n, NewCond.th[j] == old(InitCond.thini[j])) and forall(j, 0, n, NewCond.thini[j] == old(InitCond.thini[j])))"),
+             ("C01.reset_keeps_water_with_off_season", "implies(ClockStruct.sim_off_season, same(NewCond.th, old(InitCond.th)) and NewCond.surface_storage == old(InitCond.surface_storage))"),
+             ("C08.reset_ponding", "implies(not ClockStruct.sim_off_season, NewCond.surface_storage == ite(ParamStruct.FieldMngt.bunds and ParamStruct.FieldMngt.z_bund > 0.001, "
+                                   "min(ParamStruct.FieldMngt.bund_water, ParamStruct.FieldMngt.z_bund), 0))"),
+             ("C17.co2_factor_is_one_at_reference", "implies(ParamStruct.CO2.current_concentration == ParamStruct.CO2.ref_concentration, %s.fCO2 == 1)" % _SCROP),
+         ],
+         assigns=["InitCond.**", "ParamStruct.CO2.current_concentration", "ParamStruct.Seasonal_Crop_List.**"],
+         options=dict(function="reset_initial_conditions", merge_limit=None,
+                      opaque_blocks=[dict(test_prefix="crop.CalendarType == 2",
+                                          havoc=["crop.MaturityCD", "crop.MaxCanopyCD", "crop.CanopyDevEndCD", "crop.HIstartCD", "crop.HIendCD", "crop.YldFormCD",
+                                                 "crop.FloweringCD", "crop.HIGC", "crop.tLinSwitch", "crop.dHILinear", "crop.FloweringEnd"])]),
+         note="the thermal-calendar block (`if crop.CalendarType == 2:` ... vectorised numpy) is a TRUSTED block: only its frame (the season crop's calendar fields) is modelled",
+         props=("C08", "C01", "C17", "C16"))
